@@ -294,7 +294,9 @@ def enumerate_creation(ctx, g: ModelGrammar, decider_cls: str, max_depth: int, c
         it.strict_iter = True
         it.while_cap = 12
         genv = {"grammar.alternatives": dict(alternatives), "grammar.all_nodes": set(all_nodes), "grammar.recursive_prods": set(recursive),
-                "grammar.starting_symbol": C(g.start)}
+                "grammar.starting_symbol": C(g.start),
+                # the minimum-depth table itself (a decider may keep / copy it instead of asking get_distance_to_terminal every time)
+                "grammar.distanceToTerminal": {**{C(n_): d_ for n_, d_ in D.items()}, INT: 0}}
         decider, why_not = build_decider(prog, dcls, genotype_backed, max_depth, call_model, genv)
         if decider is None:
             if why_not.startswith("RAISES"):
